@@ -143,28 +143,33 @@ pub fn install_ctx(c: Ctx) {
     CTX.with(|x| *x.borrow_mut() = Some(c));
 }
 pub fn clear_ctx() {
-    CTX.with(|x| *x.borrow_mut() = None);
+    let _ = CTX.try_with(|x| *x.borrow_mut() = None);
 }
+/// None outside a scheduled client — and in a thread whose thread-locals are being torn down
+/// (operations run from a thread-local destructor: no schedule points there).
 pub fn with_ctx<R>(f: impl FnOnce(&mut Ctx) -> R) -> Option<R> {
-    CTX.with(|x| x.borrow_mut().as_mut().map(f))
+    CTX.try_with(|x| x.borrow_mut().as_mut().map(f)).ok().flatten()
 }
 
 /// Called from the repository's hooks and from the SimDoc seam. Outside a scheduled client it is a no-op.
 pub fn yield_point(site: u32) {
-    let info = CTX.with(|x| {
-        let mut b = x.borrow_mut();
-        match b.as_mut() {
-            None => None,
-            Some(c) => {
-                let k = c.yields_in_op;
-                let ks = c.site_counts[(site as usize).min(MAX_SITES - 1)];
-                Some((c.sched.clone(), c.id, c.op, c.in_op, k, ks))
+    let info = CTX
+        .try_with(|x| {
+            let mut b = x.borrow_mut();
+            match b.as_mut() {
+                None => None,
+                Some(c) => {
+                    let k = c.yields_in_op;
+                    let ks = c.site_counts[(site as usize).min(MAX_SITES - 1)];
+                    Some((c.sched.clone(), c.id, c.op, c.in_op, k, ks))
+                }
             }
-        }
-    });
+        })
+        .ok()
+        .flatten();
     let Some((sched, id, op, in_op, k, ks)) = info else { return };
     // count before stepping: an injected abort unwinds out of `step`
-    CTX.with(|x| {
+    let _ = CTX.try_with(|x| {
         if let Some(c) = x.borrow_mut().as_mut() {
             if sched.site_enabled(site) {
                 c.yields_in_op += 1;
